@@ -586,56 +586,95 @@ fn one_pass_message_case(t: &mut Tape, rec: &mut Rec) -> CaseResult {
 }
 
 fn cleartext_case(t: &mut Tape, rec: &mut Rec) -> CaseResult {
+    use super::c16::{draw_text, ref_signed_form, split_document, unescape};
     let kind = *t.pick(zoo::CHEAP_SIGNERS);
     let z = zoo::get(kind);
-    let n = t.range(0, 8);
-    let mut text = String::new();
-    for i in 0..n {
-        text.push_str(*t.pick(&["hello world", "- dashed", "-----BEGIN PGP SIGNATURE-----", "", "tab\tsep", "é€", "From here"]));
-        if i + 1 < n || t.bool() {
-            text.push_str(*t.pick(&["\n", "\r\n"]));
+    let text = if t.bool() {
+        draw_text(t)
+    } else {
+        let n = t.range(0, 8);
+        let mut text = String::new();
+        for i in 0..n {
+            text.push_str(*t.pick(&["hello world", "- dashed", "-----BEGIN PGP SIGNATURE-----", "", "tab\tsep", "é€", "From here", "nbsp\u{a0}", "ff\u{c}", "cr\r"]));
+            if i + 1 < n || t.bool() {
+                text.push_str(*t.pick(&["\n", "\r\n"]));
+            }
         }
-    }
+        text
+    };
     let msg = CleartextSignedMessage::sign(ChaCha8Rng::from_seed(t.seed32()), &text, &z.secret.primary_key, &Password::empty()).map_err(|e| f("C02:sign-error", e.to_string()))?;
     if msg.verify(&z.public.primary_key).is_err() {
         return fail("C02:positive-control-failed", format!("cleartext {text:?}"));
     }
     let arm = msg.to_armored_string(Default::default()).map_err(|e| f("C02:serialize-error", e.to_string()))?;
-    // perturb one character of the text section of the armored document
+    // perturb the text section of the armored document: substitute, insert or delete one character
     let start = arm.find("\n\n").map(|p| p + 2).unwrap_or(0);
     let end = arm.find("\n-----BEGIN PGP SIGNATURE").unwrap_or(arm.len());
     if end <= start {
         rec.discard();
         return Ok(());
     }
-    let mut bytes = arm.clone().into_bytes();
-    let p = start + t.below(end - start);
-    let old = bytes[p];
-    let new = *t.pick(&[b'x', b'-', b' ', b'\n', b'A', b'\t']);
-    if new == old {
-        rec.discard();
-        return Ok(());
-    }
-    bytes[p] = new;
-    let Ok(s2) = String::from_utf8(bytes) else {
-        rec.discard();
-        return Ok(());
+    let chars: Vec<(usize, char)> = arm[start..end].char_indices().map(|(i, c)| (start + i, c)).collect();
+    // positions at the end of a line (where blanks are significant or not) are drawn more often
+    let line_ends: Vec<usize> = chars.iter().enumerate().filter(|(_, (_, c))| *c == '\n' || *c == '\r').map(|(i, _)| i).collect();
+    let ci = if !line_ends.is_empty() && t.chance(140) { (*t.pick(&line_ends)).saturating_sub(t.below(2)) } else { t.below(chars.len()) };
+    let (p, old) = chars[ci];
+    let new = *t.pick(&['x', '-', ' ', '\n', 'A', '\t', '\r', '\u{a0}', '\u{c}', '\u{b}', '\u{3000}', '\u{2028}']);
+    let mut s2 = String::with_capacity(arm.len() + 4);
+    let op = t.below(3);
+    let what = match op {
+        0 => {
+            if new == old {
+                rec.discard();
+                return Ok(());
+            }
+            s2.push_str(&arm[..p]);
+            s2.push(new);
+            s2.push_str(&arm[p + old.len_utf8()..]);
+            format!("character {:?} at offset {} of the text section replaced by {:?}", old, p - start, new)
+        }
+        1 => {
+            s2.push_str(&arm[..p]);
+            s2.push(new);
+            s2.push_str(&arm[p..]);
+            format!("{:?} inserted at offset {} of the text section", new, p - start)
+        }
+        _ => {
+            s2.push_str(&arm[..p]);
+            s2.push_str(&arm[p + old.len_utf8()..]);
+            format!("character {:?} at offset {} of the text section deleted", old, p - start)
+        }
     };
     rec.label("cleartext:edit");
-    rec.describe(|| format!("cleartext by {kind:?} over {text:?}: byte {} of the text section {:?} -> {:?}", p - start, old as char, new as char));
+    rec.describe(|| format!("cleartext by {kind:?} over {text:?}: {what}"));
+    // reference judgement: did the RFC 9580 7.2 signed form change?
+    let same_form = match split_document(&s2) {
+        Ok((_, escaped, _)) => Some(ref_signed_form(&unescape(&escaped)) == ref_signed_form(&text)),
+        Err(_) => None,
+    };
     match CleartextSignedMessage::from_string(&s2) {
         Err(_) => {
-            rec.nontrivial(("csf-parse", text.clone(), p - start, new));
+            rec.nontrivial(("csf-parse", text.clone(), what.clone()));
             Ok(())
         }
         Ok((m2, _)) => {
-            if m2.signed_text() == msg.signed_text() {
-                rec.label("trivial:same-signed-form");
-                return Ok(());
+            match same_form {
+                Some(true) => {
+                    rec.label("trivial:same-signed-form");
+                    return Ok(());
+                }
+                None => {
+                    // the reference splitter does not accept the edited document: no verdict from it
+                    if m2.signed_text() == msg.signed_text() {
+                        rec.label("trivial:same-signed-form");
+                        return Ok(());
+                    }
+                }
+                Some(false) => {}
             }
-            rec.nontrivial(("csf", text.clone(), p - start, new));
+            rec.nontrivial(("csf", text.clone(), what.clone()));
             if m2.verify(&z.public.primary_key).is_ok() {
-                return fail("C02:cleartext-signature-verifies-over-different-text", format!("text {text:?}: byte {} {:?} -> {:?}; signed form {:?} vs {:?}", p - start, old as char, new as char, m2.signed_text(), msg.signed_text()));
+                return fail("C02:cleartext-signature-verifies-over-different-text", format!("text {text:?}: {what}; signed form {:?} vs {:?}", m2.signed_text(), msg.signed_text()));
             }
             if m2.verify_many(|_, s, d| s.verify(&z.public.primary_key, d)).is_ok() {
                 return fail("C02:cleartext-signature-verifies-over-different-text", "verify_many".to_string());
